@@ -218,6 +218,14 @@ class SpecMixin:
             args = [self.eval(a) for a in n.args[1:]]
             kwargs = {k.arg: self.eval(k.value) for k in n.keywords}
             return self.unit.call_callee(self, fname, spec, args, kwargs, n, pure=True)
+        if name in ("logres", "logarg", "logcount"):
+            # the effect log: result / a recorded argument of the only entry named X; number of entries named X
+            ents = [e for e in self.log if e[0] == n.args[0].value]
+            if name == "logcount":
+                return len(ents)
+            if len(ents) != 1:
+                raise GenError("%s(%r): %d log entries" % (name, n.args[0].value, len(ents)))
+            return ents[0][2] if name == "logres" else ents[0][1][n.args[1].value]
         if name == "wit":
             # witness (ghost / local) of the last call of a callee that was used by contract
             return self.callee_envs[n.args[0].value][n.args[1].value]
